@@ -15,17 +15,28 @@ namespace detail {
 template <typename T>
 [[nodiscard]] constexpr auto nextafter(T from, T to) -> T
 {
-    using U             = etl::conditional_t<sizeof(T) == 4U, etl::uint32_t, etl::uint64_t>;
-    auto const fromBits = etl::bit_cast<U>(from);
-    auto const toBits   = etl::bit_cast<U>(to);
-    if (toBits == fromBits) {
+    using U = etl::conditional_t<sizeof(T) == 4U, etl::uint32_t, etl::uint64_t>;
+
+    if (from != from or to != to) {
+        return from + to; // NaN
+    }
+    if (from == to) {
         return to;
     }
-    if (toBits > fromBits) {
-        return etl::bit_cast<T>(fromBits + 1);
+    if (from == T(0)) {
+        // smallest subnormal with the sign of the direction
+        auto const sign = to < T(0) ? U(U(1) << (sizeof(U) * 8U - 1U)) : U(0);
+        return etl::bit_cast<T>(U(sign | U(1)));
     }
-    return etl::bit_cast<T>(fromBits - 1);
+
+    // The magnitude grows when stepping away from zero and shrinks when stepping towards it.
+    auto const fromBits = etl::bit_cast<U>(from);
+    if ((from < to) == (from > T(0))) {
+        return etl::bit_cast<T>(U(fromBits + 1));
+    }
+    return etl::bit_cast<T>(U(fromBits - 1));
 }
+
 } // namespace detail
 
 /// \ingroup cmath
